@@ -1,4 +1,6 @@
 import TarsModel.Proofs.ShortDec
+import TarsModel.Proofs.ShortCut
+import TarsModel.Proofs.ShortTop
 import TarsModel.Model.AsFoundRead
 
 /-!
@@ -26,25 +28,164 @@ On it the reader-level clauses hold at full strength:
   current model; `C06_asFound_*` the exact relation (agree outside `0 < remaining < n`, differ
   inside).
 
-Stated only (no reference decoder `decRefLenient` exists in the model yet): `C06_prefix_full`.
+Struct level (first sentence of the property: "when a valid encoding is cut short … decoding fails
+with an error, or succeeds only with exactly the value determined by the complete fields that are
+present (later optional fields at their defaults)"):
+
+* `C06_prefix_full_holds : C06_prefix_full`   for every well-formed schema, every struct, every
+  well-typed value and EVERY prefix `p` of its encoding, `ReadFrom` into a fresh struct returns an
+  error, or: `k` members have their complete field inside `p`, `p` ends exactly there or one byte
+  later with the first byte of a two-byte head (tag ≥ 15; a head that cannot be completely read is
+  not a complete field and the generated code treats the member as absent), all members from `k`
+  on are optional, and the result is exactly the (normalised) values of the first `k` members
+  followed by what `ResetDefault` gives the others (`C06_prefix_absent_default`: `defaultOf`).
+* `C06_member_cut`      the member-level statement behind it, for every member kind (scalars,
+  strings, vectors, byte vectors, fixed arrays, maps, nested structs, arbitrarily nested): on a
+  strict prefix of the member's field the generated read reports an error, or — only for an
+  optional member whose head is not complete — treats the member as absent with the input used up.
+* `C06_prefix_error_unless_boundary`  any prefix that does not end at (or one half-head byte
+  after) a member boundary ⇒ error: no partial string, no zero-padded number, no short vector.
+* `C06_prefix_struct` / `C06_prefix_atoms` / `C06_prefix_cut_error` / `C06_prefix_boundary_ok`
+  (earlier layers, kept): admissible cuts `CutOK` with the sharper outcome `PrefixOutcome` (cut
+  exactly at a boundary), error off the boundaries, success at a boundary.
 -/
 namespace Tars
 open Consts
 
-/-! ## Full-strength struct-level statement (stated, not proved here) -/
+/-! ## Struct level: `ReadFrom` on a cut encoding -/
 
-/-- Prefix law at struct level: decoding any prefix of a valid encoding into a fresh target fails,
-    or yields a struct each of whose members is the encoded member or the member's default, and
-    stops inside the input.  NOT proved in this file: it needs the encoder/decoder round trip of
-    C03 for every prefix (and an independent reference decoder to say "determined by the complete
-    fields"); the reader-level theorems below are the part that depends on `codec.go`. -/
+/-- what `ReadFrom` into a fresh struct may do on the cut encoding `p` of the struct value `vs`:
+    report an error, or — the cut being exactly behind member `k`, all later members optional —
+    return exactly the values of the members before `k` (in the round-trip normal form of C03) and,
+    for the others, what `ResetDefault` gave them -/
+def PrefixOutcome (env : Env) (S : String) (fs : List Field) (vs : List Val) (p : Bytes) : Prop :=
+  (∃ e r', decStruct env S (freshStruct env S) (Reader.mk0 p) = (.error e, r')) ∨
+  (∃ k r' os, freshStruct env S = .struct os ∧ k ≤ fs.length ∧
+    p = encMembers env (fs.take k) (vs.take k) ∧ (∀ f ∈ fs.drop k, f.req = false) ∧
+    decStruct env S (freshStruct env S) (Reader.mk0 p) =
+      (.ok (.struct (normMembers env (fs.take k) (vs.take k) ++
+        absentVals env (decFuel env (Reader.mk0 p) - k) (fs.drop k)
+          ((resetDefault env (decFuel env (Reader.mk0 p)) fs os).drop k))), r'))
+
+/-- the outcome for an arbitrary prefix: as `PrefixOutcome`, with `k` = number of members whose
+    complete field lies inside `p`; `p` ends exactly behind them, or one byte later with the first
+    byte of a two-byte head (`CutAt`), which is not a complete field -/
+def PrefixOutcomeGen (env : Env) (S : String) (fs : List Field) (vs : List Val) (p : Bytes) : Prop :=
+  (∃ e r', decStruct env S (freshStruct env S) (Reader.mk0 p) = (.error e, r')) ∨
+  (∃ k r' os, freshStruct env S = .struct os ∧ k ≤ fs.length ∧
+    CutAt p (encMembers env (fs.take k) (vs.take k)) ∧ (∀ f ∈ fs.drop k, f.req = false) ∧
+    decStruct env S (freshStruct env S) (Reader.mk0 p) =
+      (.ok (.struct (normMembers env (fs.take k) (vs.take k) ++
+        absentVals env (decFuel env (Reader.mk0 p) - k) (fs.drop k)
+          ((resetDefault env (decFuel env (Reader.mk0 p)) fs os).drop k))), r'))
+
+/-- Prefix law at full strength: for EVERY prefix of the encoding of every well-typed value of
+    every struct of every well-formed schema (`C06_prefix_full_holds`) -/
 def C06_prefix_full : Prop :=
-  ∀ (env : Env) (name : String) (fs : List Field) (vs : List Val) (p : Bytes),
-    env.find name = some fs → p <+: encStruct env name (.struct vs) →
-    ∀ v' r', decStruct env name (freshStruct env name) (Reader.mk0 p) = (.ok v', r') →
-      r'.pos ≤ p.length ∧
-      ∃ vs' ds, v' = .struct vs' ∧ freshStruct env name = .struct ds ∧
-        ∀ i, i < fs.length → vs'[i]? = vs[i]? ∨ vs'[i]? = ds[i]?
+  ∀ (env : Env) (rk : String → Nat) (S : String) (fs : List Field) (vs : List Val) (p : Bytes),
+    WellTyped env rk S (.struct vs) → env.find S = some fs →
+    p <+: encStruct env S (.struct vs) → PrefixOutcomeGen env S fs vs p
+
+/-- **C06_prefix_full_holds** -/
+theorem C06_prefix_full_holds : C06_prefix_full := by
+  intro env rk S fs vs p hW hfs hp
+  simp only [encStruct, hfs] at hp
+  exact decStruct_prefix env rk S fs vs p hW hfs hp
+
+/-- **C06_member_cut** (every member kind, by induction over the value): the generated read of a
+    member/element holding `v`, on a strict prefix `q` of its field with nothing behind it, reports
+    an error — or, only if the member is optional and `q` does not even hold the complete head
+    (`q` empty or the first byte of a two-byte head), treats the member as absent, the input
+    being used up -/
+theorem C06_member_cut (env : Env) (rk : String → Nat) (hE : EnvWF env rk) (v : Val)
+    (fuel tag : Nat) (req : Bool) (ty : Ty) (dflt : Option Val) (old : Val) (r : Reader) (q : Bytes)
+    (htag : tag < 256) (hty : TyOK env rk (env.length + 1) ty) (hd : DfltOK ty dflt)
+    (hwt : WT env ty v) (ho : OldOK env ty dflt old)
+    (hpre : q <+: encVar env tag req ty dflt v)
+    (hlt : q.length < (encVar env tag req ty dflt v).length)
+    (hfuel : (env.width + 3) * q.length + 1 ≤ fuel) (hr : r.rest = q) :
+    (∃ e r', decVar env fuel tag req ty old r = (.error e, r')) ∨
+    (req = false ∧ (q = [] ∨ HalfHead q) ∧
+      ∃ r', decVar env fuel tag req ty old r = (.ok (Evolve.absentVal env (fuel - 1) ty old), r') ∧
+        r'.rest = []) :=
+  tr_all env rk hE v fuel tag req ty dflt old r q htag hty hd hwt ho hpre hlt hfuel hr
+
+/-- a required member or an element (vector element, map key/value) on a strict prefix of its
+    field: always an error -/
+theorem C06_member_cut_required (env : Env) (rk : String → Nat) (hE : EnvWF env rk) (v : Val)
+    (fuel tag : Nat) (ty : Ty) (dflt : Option Val) (old : Val) (r : Reader) (q : Bytes)
+    (htag : tag < 256) (hty : TyOK env rk (env.length + 1) ty) (hd : DfltOK ty dflt)
+    (hwt : WT env ty v) (ho : OldOK env ty dflt old)
+    (hpre : q <+: encVar env tag true ty dflt v)
+    (hlt : q.length < (encVar env tag true ty dflt v).length)
+    (hfuel : (env.width + 3) * q.length + 1 ≤ fuel) (hr : r.rest = q) :
+    ∃ e r', decVar env fuel tag true ty old r = (.error e, r') :=
+  cutRes_req_error (tr_all env rk hE v fuel tag true ty dflt old r q htag hty hd hwt ho hpre hlt hfuel hr)
+
+/-- a prefix that ends neither at a member boundary nor one half-head byte behind one: error -/
+theorem C06_prefix_error_unless_boundary (env : Env) (rk : String → Nat) (S : String)
+    (fs : List Field) (vs : List Val) (p : Bytes) (hW : WellTyped env rk S (.struct vs))
+    (hfs : env.find S = some fs) (hp : p <+: encStruct env S (.struct vs))
+    (hnb : ∀ k, k ≤ fs.length → ¬ CutAt p (encMembers env (fs.take k) (vs.take k))) :
+    ∃ e r', decStruct env S (freshStruct env S) (Reader.mk0 p) = (.error e, r') := by
+  rcases C06_prefix_full_holds env rk S fs vs p hW hfs hp with h | ⟨k, _, _, _, hk, hc, _⟩
+  · exact h
+  · exact absurd hc (hnb k hk)
+
+/-- **C06_prefix_struct**: every admissible cut `CutOK`, with the sharper outcome (the cut is exactly
+    at a member boundary) -/
+theorem C06_prefix_struct (env : Env) (rk : String → Nat) (S : String) (fs : List Field)
+    (vs : List Val) (p : Bytes) (hW : WellTyped env rk S (.struct vs)) (hfs : env.find S = some fs)
+    (hcut : CutOK env fs vs p) : PrefixOutcome env S fs vs p :=
+  decStruct_cut env rk S fs vs p hW hfs hcut
+
+/-- an admissible cut that is not at a member boundary is an error -/
+theorem C06_prefix_cut_error (env : Env) (rk : String → Nat) (S : String) (fs : List Field)
+    (vs : List Val) (p : Bytes) (hW : WellTyped env rk S (.struct vs)) (hfs : env.find S = some fs)
+    (hcut : CutOK env fs vs p)
+    (hnb : ∀ k, k ≤ fs.length → p ≠ encMembers env (fs.take k) (vs.take k)) :
+    ∃ e r', decStruct env S (freshStruct env S) (Reader.mk0 p) = (.error e, r') := by
+  rcases decStruct_cut env rk S fs vs p hW hfs hcut with h | ⟨k, _, _, _, hk, hp, _⟩
+  · exact h
+  · exact absurd hp (hnb k hk)
+
+/-- a cut exactly behind member `k` with only optional members left: success, with exactly the
+    present members and the defaults of the others (members of any kind) -/
+theorem C06_prefix_boundary_ok (env : Env) (rk : String → Nat) (S : String) (fs : List Field)
+    (vs : List Val) (k : Nat) (hW : WellTyped env rk S (.struct vs)) (hfs : env.find S = some fs)
+    (hk : k ≤ fs.length) (hopt : ∀ f ∈ fs.drop k, f.req = false) :
+    ∃ os r', freshStruct env S = .struct os ∧
+      decStruct env S (freshStruct env S) (Reader.mk0 (encMembers env (fs.take k) (vs.take k))) =
+        (.ok (.struct (normMembers env (fs.take k) (vs.take k) ++
+          absentVals env (decFuel env (Reader.mk0 (encMembers env (fs.take k) (vs.take k))) - k)
+            (fs.drop k)
+            ((resetDefault env (decFuel env (Reader.mk0 (encMembers env (fs.take k) (vs.take k)))) fs os).drop k))),
+         r') :=
+  decStruct_boundary env rk S fs vs k hW hfs hk hopt
+
+/-- every member boundary is an admissible cut -/
+theorem C06_cutOK_boundary (env : Env) (fs : List Field) (vs : List Val) (k : Nat) :
+    CutOK env fs vs (encMembers env (fs.take k) (vs.take k)) := cutOK_boundary env fs vs k
+
+/-- **C06_prefix_atoms**: for structs all of whose members are scalars or enums with tags below 15,
+    every prefix, with the sharper outcome `PrefixOutcome` (no half heads can occur) -/
+theorem C06_prefix_atoms (env : Env) (rk : String → Nat) (S : String) (fs : List Field)
+    (vs : List Val) (p : Bytes) (hW : WellTyped env rk S (.struct vs)) (hfs : env.find S = some fs)
+    (hat : ∀ f ∈ fs, f.ty.isAtom = true ∧ f.tag < 15)
+    (hp : p <+: encStruct env S (.struct vs)) : PrefixOutcome env S fs vs p := by
+  have hwm : WTm env fs vs := by simpa [WT, hfs] using hW.2
+  simp only [encStruct, hfs] at hp
+  exact decStruct_cut env rk S fs vs p hW hfs (cutOK_of_atoms env fs vs p hat hwm hp)
+
+/-- the value of an absent member that is not a nested struct: `defaultOf` (C04: its explicit IDL
+    default, else reset structs for an array of structs, else the Go zero value) — the entry of
+    `absentVals` in `PrefixOutcome`, for member `k + i` of the schema -/
+theorem C06_prefix_absent_default (env : Env) (G F k i : Nat) (fs : List Field) (os0 : List Val)
+    (f : Field) (o0 : Val) (hf : fs[k + i]? = some f) (ho : os0[k + i]? = some o0)
+    (hty : Evolve.isStructTy f.ty = false) :
+    (absentVals env F (fs.drop k) ((resetDefault env (G+1) fs os0).drop k))[i]?
+      = some (Evolve.defaultOf env G f) :=
+  absentVals_reset_plain env G F k i fs os0 f o0 hf ho hty
 
 /-! ## Primitives: a successful read is one complete payload inside the input -/
 
@@ -313,5 +454,60 @@ example : readString [] 3 true (Reader.mk0 (C06.bs [0x31, 0, 7]))
 example : ShortAt (Reader.mk0 (C06.bs [1])) 2 := by unfold ShortAt; decide
 example : ¬ ShortAt (Reader.mk0 (C06.bs [1, 2])) 2 := by unfold ShortAt; decide
 example : ¬ ShortAt (Reader.mk0 (C06.bs [])) 2 := by unfold ShortAt; decide
+
+/-! ## Non-vacuity of the struct-level theorems: `struct P { 0 require int a; 1 optional string b; }` -/
+
+-- hypotheses: a well-formed schema, a well-typed value, its encoding `01 12 34 16 02 61 62`
+example : WellTyped C06.envP C06.rkP "P" (.struct C06.vsP) := C06.vP_wt
+example : encMembers C06.envP C06.fsP C06.vsP = C06.bsP [0x01, 0x12, 0x34, 0x16, 2, 97, 98] := C06.encP
+
+/-- cut in the middle of the second member (`01 12 34 16 02 61`, the string announces 2 bytes and
+    one is there): `ReadFrom` reports an error — not the partial string "a" -/
+theorem C06_example_cut_inside :
+    ∃ e r', decStruct C06.envP "P" (freshStruct C06.envP "P")
+      (Reader.mk0 (C06.bsP [0x01, 0x12, 0x34, 0x16, 2, 97])) = (.error e, r') := by
+  apply C06_prefix_cut_error C06.envP C06.rkP "P" C06.fsP C06.vsP _ C06.vP_wt C06.findP
+  · apply cutOK_of_atoms
+    · intro f hf
+      simp only [C06.fsP, List.mem_cons, List.not_mem_nil, or_false] at hf
+      rcases hf with rfl | rfl <;> decide
+    · simpa [WT, C06.findP] using C06.vP_wt.2
+    · rw [C06.encP]; decide
+  · intro k hk h
+    have hl := congrArg List.length h
+    have hk' : k = 0 ∨ k = 1 ∨ k = 2 := by simp [C06.fsP] at hk; omega
+    rcases hk' with rfl | rfl | rfl
+    · simp [encMembers, C06.bsP] at hl
+    · rw [C06.encP1] at hl; simp [C06.bsP] at hl
+    · have : encMembers C06.envP (C06.fsP.take 2) (C06.vsP.take 2) = encMembers C06.envP C06.fsP C06.vsP := rfl
+      rw [this, C06.encP] at hl; simp [C06.bsP] at hl
+
+/-- cut exactly behind the first member (`01 12 34`): success, `b` at its default (the empty string) -/
+theorem C06_example_cut_boundary :
+    ∃ r', decStruct C06.envP "P" (freshStruct C06.envP "P") (Reader.mk0 (C06.bsP [0x01, 0x12, 0x34]))
+      = (.ok (.struct [.int 0x1234, .str []]), r') := by
+  obtain ⟨os, r', hos, h⟩ := C06_prefix_boundary_ok C06.envP C06.rkP "P" C06.fsP C06.vsP 1 C06.vP_wt
+    C06.findP (by decide) (by intro f hf; simp [C06.fsP] at hf; subst hf; rfl)
+  rw [C06.encP1] at h
+  refine ⟨r', ?_⟩
+  rw [h]
+  have hfresh : freshStruct C06.envP "P" = .struct [.int 0, .str []] := by
+    simp [freshStruct, zeroOf, zeroVal, C06.envP, Env.find, scalarZero]
+  rw [hfresh] at hos
+  cases hos
+  have hF : decFuel C06.envP (Reader.mk0 (C06.bsP [0x01, 0x12, 0x34])) = 25 + 1 := by rfl
+  rw [hF]
+  simp [C06.fsP, C06.vsP, normMembers, normVar, absentVals, Evolve.absentVal, resetDefault, zeroOf,
+    zeroVal, scalarZero]
+
+
+-- the half-head case of `PrefixOutcomeGen` / `C06_member_cut` is not vacuous: `F6` is the first byte of
+-- the head of a STRING1 field with a tag ≥ 15
+example : HalfHead [byte 0xF6] := ⟨byte 0xF6, rfl, by decide⟩
+example : CutAt ([byte 0x01, byte 0x12, byte 0x34] ++ [byte 0xF6]) [byte 0x01, byte 0x12, byte 0x34] :=
+  .inr ⟨byte 0xF6, by decide, rfl⟩
+-- hypotheses of `C06_prefix_full_holds` on the example: every prefix of the encoding qualifies
+example : C06.bsP [0x01, 0x12, 0x34, 0x16, 2] <+: encStruct C06.envP "P" (.struct C06.vsP) := by
+  simp only [encStruct, C06.findP]; rw [C06.encP]; decide
 
 end Tars
